@@ -67,6 +67,12 @@ func FuzzVerifC08(f *testing.F) {
 	add("a:\n  a: 1\n", "2021/01/01:\n  a: NaN\n", 16, 1)
 	add("a:\n  b: 1e400\nb:\n  a: Inf\n", "2021/01/01:\n  # note\n  a: -0\n", 9, 3)
 	add("\xef\xbb\xbfa:\r\n\t- \"x\": 1\r\n", "2021/01/01:\n  #\n  a/b/c: 1\n  a/b/d: 2\n", 7, 2)
+	// hostile constants the mutator does not find on its own in minutes: long runs of UTF-8 continuation bytes where a
+	// value is expected, a heading that almost is a date, a name of several hundred bytes mentioned twice
+	add("a:\n  x: "+string(vRepeatByte(0x80, 120))+"1\n", "2021/01/01:\n  a: "+string(vRepeatByte(0xbf, 300))+"\n", 0, 0)
+	add("a:\n  x: 1\n", "2021/00/10:\n  a: 1\n2021/13/01:\n  a: 1\n2021/02/30:\n  a: 1\n", 10, 0)
+	add("a:\n  x: 1\n  y: 2\nb:\n  x: 1\n", "2021/01/01:\n  a: 1\n  b: 1\n", 3, 1)
+	add("a:\n  x: 1\n", "2021/01/01:\n  "+string(vRepeatByte('n', 300))+": 1\n  "+string(vRepeatByte('n', 300))+": 2\n", 9, 0)
 	repo := os.Getenv("VERIF_REPO_DIR")
 	for _, p := range []string{filepath.Join(repo, "examples/food.yaml"), filepath.Join(repo, "cmd/hranoprovod-cli/internal/testutils/testAssets/food.yaml")} {
 		if b, err := os.ReadFile(p); err == nil {
